@@ -15,6 +15,8 @@ for d in sorted((ROOT / "seeded").iterdir()):
         line = next((l for l in v.get("lines", []) if l.startswith("violation[") or l.startswith("regression replay")), "")
         kind = re.search(r"violation\[([^\]]+)\]", line)
         how.append(f"{c}: {'**caught** (' + kind.group(1) + ')' if v['rc'] == 1 and kind else ('**caught**' if v['rc'] == 1 else 'not caught')} [{v.get('tier', 'quick')}, {v.get('wall_s')} s]")
+    if m.get("note"):
+        how.append("(" + m["note"] + ")")
     rows.append((d.name, " ".join((m.get("summary") or "").split()).replace("|", "/")[:170], " ".join((m.get("needs") or "").split()).replace("|", "/")[:200], "; ".join(how), bool(det)))
 out = ["Each row is one change made by a sub-agent that saw only the property record (section 5), confirmed by",
        "`tools/verify_seed.py` (demonstration passes on the unchanged tree, fails with the patch, the 495 repository tests pass",
@@ -24,7 +26,8 @@ for name, summ, needs, how, ok in rows:
     out.append(f"| {name} | {summ} | {needs} | {how} |")
 caught = sum(1 for r in rows if r[4])
 out += ["", f"{caught} of {len(rows)} seeded changes are reported by the quick tier of the check of their property (or, where noted, of the",
-        "property that owns the mechanism)."]
+        "property that owns the mechanism). The results are those of the last re-run of every change against the final heads of",
+        "`/repo` and `/verif` (`tools/recheck_seeds.sh`)."]
 notes = (ROOT / "tools" / "seed_notes.md")
 if notes.exists():
     out += ["", notes.read_text().rstrip()]
